@@ -11,7 +11,7 @@ from simkit import vclock, pipeline as pl
 from simkit.lifecycle import LoggingTestResult
 
 ID = "C08"
-RUNS = {"quick": 400_000, "thorough": 3_000_000}
+RUNS = {"quick": 320_000, "thorough": 3_000_000}
 SIM_TIME_UNIT = "reporter calls"
 RULE = (
     "each run = a scripted reporter issuing a well-formed history of TestResult calls (startTestRun, tags, time, "
